@@ -416,7 +416,7 @@ class FnView:
         # de-duplicate
         seen, res = set(), []
         for d in out:
-            k = (d["block"], d["kind"], d["how"])
+            k = (d["block"], d["kind"], d["how"], d.get("def_block"))
             if k not in seen:
                 seen.add(k)
                 res.append(d)
@@ -451,7 +451,13 @@ class FnView:
                 return [("value", repr(rv), s.line, {"stmt": s})]
             for (bi2, idx2, obj2) in ds:
                 for (k, h, ln, ex) in self._classify_def(idx2, obj2, seen | {l}):
-                    res.append((k, h, s.line, ex if "call" in ex else {"stmt": s, "def_stmt": ex.get("stmt")}))
+                    ex2 = ex if "call" in ex else {"stmt": s, "def_stmt": ex.get("stmt")}
+                    if len(ds) > 1:
+                        # the copied local gets its value on several paths (`let r = if c { Some(..) } else { None }; r`, the
+                        # result of an inlined helper): remember where *this* kind of value is made, so that "this outcome
+                        # only behind guard G" can be asked about that block instead of the join
+                        ex2 = dict(ex2, def_block=ex.get("def_block", bi2))
+                    res.append((k, h, s.line, ex2))
             return res
         if rv.op == "use" and rv.ops[0].const is not None:
             sv = rv.ops[0].const["s"]
